@@ -163,7 +163,7 @@ def corpus_files():
     return sorted(f for f in os.listdir(d) if f.endswith((".cif", ".pdb")) and os.path.getsize(os.path.join(d, f)) > 0)
 
 
-ABASIC = ("1ATO.pdb#abasic", "1A1T_1_B.cif#abasic")
+ABASIC = ("1ATO.pdb#abasic", "1A1T_1_B.cif#abasic", "1ATO.pdb#siblings", "488d.pdb#siblings")
 
 
 def load_corpus(name):
@@ -185,6 +185,22 @@ def load_corpus(name):
                     r2 = Residue3D(r.label, r.auth, r.model, "?", keep)
                     if r2.is_nucleotide:
                         r = r2
+            out.append(r)
+        s = Structure3D(out)
+    if name.endswith("#siblings"):
+        # '<file>#siblings': where two neighbouring residues of a chain carry the same name, the second is
+        # renumbered to the first one's number with insertion code A (residues N and N^A alike in chain, number, name)
+        from rnapolis.common import ResidueAuth
+        from rnapolis.tertiary import Atom, Residue3D, Structure3D
+        out = []
+        for r in s.residues:
+            p = out[-1] if out else None
+            if (p is not None and r.auth is not None and p.auth is not None and r.auth.chain == p.auth.chain
+                    and r.auth.name == p.auth.name and not r.auth.icode and not p.auth.icode
+                    and r.auth.number == p.auth.number + 1):
+                au = ResidueAuth(p.auth.chain, p.auth.number, "A", p.auth.name)
+                atoms = tuple(Atom(a.entity_id, None, au, a.model, a.name, a.x, a.y, a.z, a.occupancy) for a in r.atoms)
+                r = Residue3D(None, au, r.model, r.one_letter_name, atoms)
             out.append(r)
         s = Structure3D(out)
     return s
@@ -254,6 +270,14 @@ def materialise_entries(st, s3d, entries, refmode):
         if refmode_ == "label" and lab is not None:
             return Residue(lab, None)
         return Residue(lab, auth)
+    def respelled(k):
+        # the identifier an external tool writes for a residue without insertion code: the blank PDB column
+        from rnapolis.common import ResidueAuth
+        au = s3d.residues[k - 1].auth
+        return Residue(None, ResidueAuth(au.chain, au.number, " ", au.name))
+    if any(e.get("opt") for e in entries):
+        return [BasePair(respelled(e["a"]) if e.get("opt") else ref(e["a"]), ref(e["b"]), LeontisWesthof[e["lw"]],
+                         Saenger[e["sa"]] if e["sa"] else None) for e in entries]
     if refmode == "mixed":
         # a list merged from two sources: every other entry names its residues the external tools' way
         return [BasePair(ref(e["a"], ("both", "auth")[n % 2]), ref(e["b"], ("both", "auth")[n % 2]), LeontisWesthof[e["lw"]],
@@ -329,6 +353,26 @@ def record(case, st=None):
     entries = [{"a": e["a"], "b": e["b"], "lw": e["lw"],
                 "sa": e["sa"] if "sa" in e else saenger_for(st, e, case.get("samode", "none"))}
                for e in case["entries"]]
+    # every ninth case: up to two entries name their first residue (one without insertion code) the way external
+    # tools do, with a blank insertion code; the code may drop such an entry or resolve it to THAT residue
+    c["optional"] = []
+    import zlib
+    def has_sibling(k):      # another residue alike in chain, number and name, with an insertion code
+        au = s3d.residues[k - 1].auth
+        return any(o.auth is not None and o is not s3d.residues[k - 1] and o.auth.icode and
+                   (o.auth.chain, o.auth.number, o.auth.name) == (au.chain, au.number, au.name) for o in s3d.residues)
+    siblings = str(st.get("name", "")).endswith("#siblings")
+    if siblings or zlib.crc32(str(case["id"]).encode()) % 9 == 4:
+        order = sorted(range(len(entries)), key=lambda n: (not (siblings and entries[n]["a"] > 0 and
+                                                                s3d.residues[entries[n]["a"] - 1].auth is not None and
+                                                                has_sibling(entries[n]["a"])), n))
+        for n in order:
+            e = entries[n]
+            if len(c["optional"]) < 2 and e["a"] > 0 and s3d.residues[e["a"] - 1].auth is not None \
+                    and not s3d.residues[e["a"] - 1].auth.icode:
+                e["opt"] = 1
+                c["optional"].append(n + 1)
+        c["optional"].sort()
     c["entries"] = entries
     bps = materialise_entries(st, s3d, entries, case.get("refmode", "both"))
     want_all = sum(1 for e in entries if e["lw"] == "cWW") <= 6
